@@ -54,6 +54,20 @@ def mustReject (hard : Bool) (text : List Nat) : Bool :=
      | [] => true
      | r :: rs => rs.any fun x => x.2.length != r.2.length)
 
+/-- the same for the plain-text reader, which does not look at the alphabet: no leading header, a header without ID,
+unequal lengths, no records -/
+def mustRejectPlain (text : List Nat) : Bool :=
+  let lines := (splitLines text).filter (fun l => !l.isEmpty)
+  match blocks lines with
+  | none => true
+  | some bs =>
+    let recs := dropEmptyLast bs
+    recs.isEmpty ||
+    bs.any (fun b => (firstField b.1).isNone) ||
+    (match recs with
+     | [] => true
+     | r :: rs => rs.any fun x => x.2.length != r.2.length)
+
 def hasBlankLine (text : List Nat) : Bool := (splitLines text).any (·.isEmpty)
 
 /-- completeness score and A/C/G/T counts from base sets -/
